@@ -283,7 +283,7 @@ func runWire(e *Env) {
 			if proto >= 4 && len(binds) > 0 {
 				pm.PKIndices = []uint16{0}
 			}
-			if len(binds) == 0 {
+			if len(binds) == 0 && tp.Chance(1, 2) {
 				pm.GlobalSpec = false
 			}
 			var rm *cqlspec.RowsMeta
@@ -453,7 +453,7 @@ func wireGenOp(k *kernel.Kernel, token string, proto int) *wireOp {
 		k.Fault("req.timestamp-off")
 	case 2:
 		op.tsMode, op.ts = 2, []int64{1, 1700000000000000, -5, 1 << 60}[tp.Next(4)]
-		if tp.Chance(1, 12) {
+		if tp.Chance(1, 40) {
 			op.ts = 0
 		}
 		k.Fault("req.explicit-timestamp")
@@ -520,7 +520,8 @@ func wireGenOp(k *kernel.Kernel, token string, proto int) *wireOp {
 		case 2:
 			op.pageSize = 7
 		case 3:
-			op.pageState = [][]byte{[]byte("state-1"), {0, 1, 2, 0xff}}[tp.Next(2)]
+			// (an empty, non-nil state: what a stateless paging API decodes for "first page")
+			op.pageState = [][]byte{[]byte("state-1"), {0, 1, 2, 0xff}, {}}[tp.Next(3)]
 			k.Fault("req.paging-state")
 		}
 	}
